@@ -216,10 +216,13 @@ def Obj.integrate (o : Obj) (v1 v2 : Rat) : Except Err (Rat × Obj) := do
 def listMin (l : List Rat) (d : Rat) : Rat := l.foldl rmin (l.headD d)
 def listMax (l : List Rat) (d : Rat) : Rat := l.foldl rmax (l.headD d)
 
-/-- knots `i1+1 … i2` inclusive -/
-def Obj.knotValues (o : Obj) (i1 i2 : Nat) : List Rat := (List.range (i2 - i1)).map (fun k => o.y (i1 + 1 + k))
+/-- knots `first … last` inclusive (empty when `first > last`) -/
+def Obj.knotValues (o : Obj) (first last : Nat) : List Rat :=
+  (List.range (last + 1 - first)).map (fun k => o.y (first + k))
 
-/-- `Local_Minimum(x_1,x_2)` (`isMax = false`) / `Local_Maximum` (`isMax = true`) -/
+/-- `Local_Minimum(x_1,x_2)` (`isMax = false`) / `Local_Maximum` (`isMax = true`).
+    The candidate knots are `i1+1 … i2`, plus knot `i1 = 0` when `x_1` lies below the domain and
+    knot `i2+1 = N-1` when `x_2` lies above it (fix ede24b1). -/
 def Obj.localExt (o : Obj) (isMax : Bool) (v1 v2 : Rat) : Except Err (Rat × Obj) := do
   if v2 < v1 then throw .diag
   let (fl, oa) ← o.interpolate v1
@@ -227,9 +230,11 @@ def Obj.localExt (o : Obj) (isMax : Bool) (v1 v2 : Rat) : Except Err (Rat × Obj
   let (i1, oc) ← ob.locate v1
   let (i2, od) ← oc.locate v2
   let pick := if isMax then rmax else rmin
-  if i1 = i2 then pure (pick fl fr, od)
+  let first := if v1 < o.x 0 then i1 else i1 + 1
+  let last := if v2 > o.x (o.N - 1) then i2 + 1 else i2
+  if first > last then pure (pick fl fr, od)
   else
-    let ks := o.knotValues i1 i2
+    let ks := o.knotValues first last
     let mn := o.pref * listMin ks 0
     let mx := o.pref * listMax ks 0
     pure (pick (pick (pick fl mn) mx) fr, od)
